@@ -189,7 +189,22 @@ func tags(c Case) []string {
 		shape = "omit"
 	}
 	t = append(t, "fin="+fin+"/sel="+shape)
+	if c.Model.Shape != shapeFlat {
+		t = append(t, "shape="+shapeName[c.Model.Shape])
+		t = append(t, "shape="+shapeName[c.Model.Shape]+"/fin="+fin)
+	}
 	// narrow tags for specific input classes
+	if sh := c.Model.shadow(); sh >= 0 {
+		// the restricted outer field Fi shares its Go name with Aud.Fi, and the
+		// program takes a path the tag of Fi denies that is guarded only by the
+		// permission pass of SelectAndOmitColumns (not a struct-valued update)
+		p := c.Model.modelPerm(sh)
+		structUpdate := finIsUpdate(c.Fin) && finIsStruct(c.Fin) || c.Fin == fSaveExisting
+		createPath := !finIsUpdate(c.Fin) && c.Fin != fSaveExisting
+		if !structUpdate && ((createPath && (!p.C || !p.U)) || (!createPath && !p.U)) {
+			t = append(t, "restricted-field-go-name-shadowed-by-embedded-prefix-field")
+		}
+	}
 	userSel := c.Sel.Star || len(c.Sel.Sel) > 0
 	if c.Fin == fSaveExisting && c.Target == tDisjoint && !userSel {
 		t = append(t, "save-existing-key-with-where-excluding-it")
@@ -251,7 +266,7 @@ func check(x *ctx, w *worker, c Case, distinct *mc.Set) {
 	// the other spelling must write the same cells (and fail alike). Not
 	// applied when a key names a field gorm ignores (-, -:all): there the
 	// column spelling is a raw column name gorm does not connect to the field.
-	if !finIsStruct(c.Fin) && c.KeySpell == 0 && res.err == nil && !c.ignoredKeyOffered() {
+	if !finIsStruct(c.Fin) && c.KeySpell == 0 && res.err == nil && !c.ignoredKeyOffered() && !c.nameAmbiguous() {
 		twin := c
 		twin.KeySpell = 1
 		tres := w.exec(twin)
@@ -403,6 +418,35 @@ func models(tier string) []ModelSpec {
 			variants(t, tier == "thorough")
 		}
 	}
+	// shaped models: embedded base with re-declared (stricter) outer field,
+	// embedded struct with column prefix shadowing a Go field name, separate
+	// patch struct type as update value
+	positions := []int{0, 1}
+	for _, pos := range positions {
+		for _, tg := range []int{tgCreateOnly, tgUpdateOnly, tgNoWrite, tgReadOnly} {
+			var t [4]int
+			t[pos] = tg
+			out = append(out, ModelSpec{Tags: t, Shape: shapeOverrideBaseFirst}, ModelSpec{Tags: t, Shape: shapeOverrideBaseLast}, ModelSpec{Tags: t, Shape: shapePrefixShadow})
+		}
+		for _, tg := range []int{tgCreateOnly, tgNoWrite, tgReadOnly, tgIgnore} {
+			var t [4]int
+			t[pos] = tg
+			out = append(out, ModelSpec{Tags: t, Shape: shapePatch}, ModelSpec{PatchTags: t, Shape: shapePatch})
+		}
+	}
+	if tier == "thorough" {
+		for _, pos := range positions {
+			for _, tg := range []int{tgCreateOnly, tgNoWrite, tgReadOnly} {
+				var t, q [4]int
+				t[pos] = tg
+				q[1-pos] = tgCreateOnly
+				out = append(out, ModelSpec{Tags: t, PatchTags: q, Shape: shapePatch})
+				var t2 [4]int
+				t2[pos], t2[2+pos] = tg, tgUpdateOnly
+				out = append(out, ModelSpec{Tags: t2, Shape: shapeOverrideBaseFirst}, ModelSpec{Tags: t2, Shape: shapePrefixShadow})
+			}
+		}
+	}
 	if tier == "thorough" {
 		for p1 := 0; p1 < 4; p1++ {
 			for p2 := p1 + 1; p2 < 4; p2++ {
@@ -421,7 +465,7 @@ func models(tier string) []ModelSpec {
 
 func focusOf(m ModelSpec) (focus []int, other int) {
 	for i := 0; i < 4; i++ {
-		if m.Tags[i] != tgNone {
+		if m.Tags[i] != tgNone || m.PatchTags[i] != tgNone {
 			focus = append(focus, i)
 		}
 	}
@@ -614,6 +658,9 @@ func singlePatterns(m ModelSpec, tier string) [][4]int {
 }
 
 func enumerate(u unit, tier string, emit func(Case)) {
+	if u.m.Shape == shapePatch && u.fin != fUpdatesStruct && u.fin != fUpdatesStructPtr && u.fin != fUpdateColumnsStruct {
+		return // every other program is identical to the flat model
+	}
 	seen := map[string]bool{}
 	sels := selSets(u.m, tier)
 	var vals [][4]int
@@ -650,7 +697,9 @@ func enumerate(u unit, tier string, emit func(Case)) {
 	for _, f := range focus {
 		focusOnly[f] = vNonZero
 	}
-	if finIsSingle(u.fin) {
+	if u.m.Shape != shapeFlat && tier != "thorough" {
+		// shaped models: data patterns only
+	} else if finIsSingle(u.fin) {
 		combos = append(combos, combo{none, [2]int{0, 1}}, combo{none, [2]int{1, 0}})
 	} else if tier == "thorough" && len(focus) > 1 {
 		combos = append(combos, combo{allNZ, [2]int{1, 1}}, combo{allNZ, [2]int{0, 1}}, combo{none, [2]int{0, 1}})
@@ -660,7 +709,7 @@ func enumerate(u unit, tier string, emit func(Case)) {
 		}
 	}
 	sessions := []bool{false}
-	if finAllowsSkipHooksSession(u.fin) {
+	if finAllowsSkipHooksSession(u.fin) && (u.m.Shape == shapeFlat || tier == "thorough") {
 		sessions = []bool{false, true}
 	}
 	for _, s := range sels {
@@ -802,11 +851,12 @@ func main() {
 	run.Assume("the reference meaning of each permission tag and of Select/Omit is written from gorm's documentation in oracle.go/model.go and is trusted")
 	run.Assume("cells classified 'free' by the reference model are not asserted: auto-time cells on create under a restricting Select that does not name them, on create-from-map / upsert-from-map without a key for them, the update-time cell on upsert-from-map and under explicit DoUpdates; a DoUpdates column listed by hand for a restricted field; a map key spelled as the raw column name of a field gorm ignores (-, -:all); the primary key cell when Select(\"*\") meets a struct value; a create-time/update-time cell that is selected explicitly while the struct carries the zero value (only 'never a fresh time' is asserted); a map key for the update-time column under a hook-running update when a restricting Select does not name it; in-memory write-back into the model value is not part of this property")
 	run.Assume("differential rule: every map program (Create(map), Create(&[]map), upsert-from-map, Updates(map), Update, UpdateColumn, UpdateColumns(map)) is also run with its keys in the other spelling and must write the same cells, including the cells the absolute model leaves free; excluded: maps with a key for a field gorm ignores (-, -:all)")
+	run.Assume("model shapes: override = untagged embedded Base{F0..F3} plus an outer re-declaration (same Go name, same column) with <-:create/<-:update/<-:false/-> (outer = shortest path = effective field; ->:false, - and -:all are not enumerated as overriding tags because gorm lets a field without any permission not take over); prefix-shadow = flat model plus Aud{Fi} with embeddedPrefix aud_ (column aud_fi is not asserted on rows the program may write; a field-name spelled Select/Omit entry or map key Fi is ambiguous between fi and aud_fi, so only the hard core is asserted for fi then and the spelling-differential rule is skipped); patch-struct = Updates/UpdateColumns with a value of a different struct type P{F0..F3} with its own tags (a column is writable only if the model's field and P's field both allow it; the update-time cell is free because P has no update-time field)")
 	run.Assume("a Session{SkipHooks:true} chain is treated like the column-update methods (no refresh of update-time, update-time written only when selected or supplied)")
 	run.Finish(map[string]interface{}{
 		"evaluations":         st.total,
 		"distinct_nontrivial": distinctTotal,
-		"rule": "every model of the bound (quick: <=1 tagged data field: 9 tags x 4 positions, plus time.Time / <-:create create-time variants of the untagged model; thorough: all variants of those plus every pair of tagged fields) x 21 write programs x Select/Omit sets x value patterns (absent/zero/non-zero/Expr per data field; explicit non-zero create-time/update-time values none/update/both/create on a subset of the data patterns) x Session{SkipHooks} on/off for Updates(struct|&self|map) x key spelling x target (model key / condition / both / both-disjoint); " +
+		"rule": "every model of the bound (quick: <=1 tagged data field: 9 tags x 4 positions, plus time.Time / <-:create create-time variants of the untagged model, plus 40 shaped models (embedded base with re-declared outer field in both declaration orders, embedded struct with column prefix shadowing a Go field name, separate patch struct type as update value; positions 0/1, restricting tags); thorough: all variants of those plus every pair of tagged fields) x 21 write programs x Select/Omit sets x value patterns (absent/zero/non-zero/Expr per data field; explicit non-zero create-time/update-time values none/update/both/create on a subset of the data patterns) x Session{SkipHooks} on/off for Updates(struct|&self|map) x key spelling x target (model key / condition / both / both-disjoint); " +
 			"a case is non-trivial when the write changed at least one cell AND at least one cell for which a value was offered had to stay untouched (denied by tag, omitted, not selected, zero struct field is not counted) and the whole oracle passed; distinct = distinct (model, program, sel, values, spelling, target) tuples",
 		"samples":                                       x.samples.List(),
 		"exhaustive":                                    timedOut == 0,
